@@ -319,7 +319,8 @@ class Oracle:  # pylint: disable=too-many-instance-attributes
             if 'meta' in en:
                 check_meta_rows(world, side, handle, state)
             if 'validate' in en:
-                res = handle.validate()
+                # (with a progress callback validation also counts the objects of every pack beforehand)
+                res = handle.validate(callback=(lambda action, value: None) if self.rng.random() < 0.3 else None)
                 if not res.is_valid():
                     issues = {k: [x[:12] for x in v] for k, v in res.__dict__.items() if v}
                     _fail(world, 'validate-not-clean', f'{issues}')
